@@ -124,6 +124,8 @@ pub struct Swarm {
     pub w_panic: u64,
     pub w_rt: u64,
     pub big: bool,
+    /// this run contains macro-steps on very long operands (a sixth of the "big" runs: they cost milliseconds each)
+    pub macro_steps: bool,
 }
 
 impl Swarm {
@@ -143,8 +145,10 @@ impl Swarm {
             w_panic: w(2),
             w_rt: w(5),
             big: false,
+            macro_steps: false,
         };
         s.big = rng.chance(1, 3);
+        s.macro_steps = s.big && rng.chance(1, 6);
         if s.w_ctor == 0 && rng.chance(3, 4) {
             s.w_ctor = 10;
         }
@@ -426,8 +430,19 @@ pub fn gen_rt(rng: &mut Rng) -> Op {
         .lit(gen_lit_bits(rng, kbits))
 }
 
+/// DSIM_NO_MACRO=1: leave the macro-steps on very long operands out of the generated histories (the opt-level-0
+/// slice, where they cost tens of milliseconds each)
+pub fn no_macro_steps() -> bool {
+    static FLAG: std::sync::OnceLock<bool> = std::sync::OnceLock::new();
+    *FLAG.get_or_init(|| std::env::var("DSIM_NO_MACRO").map(|v| v == "1").unwrap_or(false))
+}
+
+pub fn is_macro_step(name: &str) -> bool {
+    matches!(name, "u.big" | "f.big" | "d.big" | "rbig.reduce")
+}
+
 pub fn gen_op(rng: &mut Rng, sw: &Swarm, faults: bool) -> Op {
-    if sw.big && !cfg!(miri) && rng.chance(1, 30) {
+    if sw.macro_steps && !cfg!(miri) && !no_macro_steps() && rng.chance(1, 30) {
         // operands far above the pool cap, inside one step (algorithm thresholds counted in words)
         return Op::new("u.big").a(slot(rng)).b(slot(rng)).c(slot(rng)).dst(slot(rng)).n(rng.below(7) as i64).m(rng.below(1 << 20) as i64).form(rng.below(20));
     }
